@@ -40,6 +40,10 @@ func (c *Conversation) generateInstanceTag() error {
 // ExtractInstanceTags returns our and theirs instance tags from the message, and ok if the message was parsed properly
 func ExtractInstanceTags(m []byte) (ours, theirs uint32, ok bool) {
 	if bytes.HasPrefix(m, []byte("?OTR:")) {
+		if len(m) <= len(msgMarker) {
+			return 0, 0, false
+		}
+
 		msg, err := decode(encodedMessage(m))
 		if err != nil {
 			return 0, 0, false
